@@ -36,7 +36,7 @@ CHILD = os.path.join(env.VERIF, "vmon", "c17_child.py")
 
 def required(tier):
     return ["history:after_failure", "history:repeat_same_text", "history:after_other_resolution", "threads:switches_inside_chartparse>=100",
-            "threads:2", "threads:16", "baseline:valid", "baseline:failing", "selection_cases", "read_by_path_cases",
+            "threads:2", "threads:16", "baseline:valid", "baseline:failing", "selection_cases", "read_by_path_cases", "history:late_failure_then_sibling_with_other_tempi",
             "cold_start:first_parses_of_the_process_were_concurrent"]
 
 
@@ -166,6 +166,36 @@ def corpus(rng, n):
                              ("ExpertSingle", ["  0 = N 0 0"] + shared_n), ("HardSingle", shared_n[1:3])])
     texts.append({"text": x, "want": None, "res": 192, "kind": "failing:track"})
     texts.append({"text": y, "want": None, "res": 192, "kind": "valid"})
+    # charts that fail LATE — in the instrument stage, after tempo map, events and at least one whole track were built — each
+    # followed (usually at once, same thread) by a sibling with the same ticks under other tempi: whatever the aborted parse left
+    # half-done must not reach the next one
+    c = gen.gen_chart(rng, "realistic", n_tracks=2, n_groups=rng.choice([6, 25]), n_globals=4, n_tempos=rng.choice([2, 4]), shuffle_sections=False)
+    secs = [(n_, list(b)) for n_, b in c["sections"]]
+    inst = [k for k, (n_, b) in enumerate(secs) if n_ not in ("Song", "SyncTrack", "Events")]
+    if len(inst) == 2 and all(secs[k][1] for k in inst):
+        def with_sync(fn):
+            return [(n_, fn(b) if n_ == "SyncTrack" else b) for n_, b in secs]
+
+        def retempo(b):
+            out = []
+            for ln in b:
+                tk = ln.split()
+                out.append(f"  {tk[0]} = B {gen.usable_n(int(tk[3]) * 3 // 2 + 1017)}" if len(tk) == 4 and tk[2] == "B" else ln)
+            return out
+
+        sibling = gen.render_sections(with_sync(retempo))
+        last_tick = max(int(ln.split()[0]) for ln in secs[inst[-1]][1])
+        first_tick = int(secs[inst[-1]][1][0].split()[0])
+        late = {
+            "forced_first_note_of_last_track": [(n_, ([f"  {first_tick} = N 0 0", f"  {first_tick} = N 5 0"] + [ln for ln in b if int(ln.split()[0]) > first_tick])
+                                                 if k == inst[-1] else b) for k, (n_, b) in enumerate(secs)],
+            "zero_tempo_under_last_note": with_sync(lambda b: b + [f"  {max(last_tick, max(int(x.split()[0]) for x in b) + 1)} = B 0"]),
+            "line_back_at_tick_0_after_last_note": [(n_, b + ["  0 = E solo"] if k == inst[-1] else b) for k, (n_, b) in enumerate(secs)],
+        }
+        for name, ss in late.items():
+            texts.append({"text": gen.render_sections(ss), "want": None, "res": c["truth"]["resolution"], "kind": "failing:late:" + name,
+                          "follow": len(texts) + 1})
+            texts.append({"text": sibling, "want": None, "res": c["truth"]["resolution"], "kind": "valid"})
     # read-by-path variants: UTF-8 with BOM, UTF-8 with non-ASCII text, and bytes that are not UTF-8 (fails the same way everywhere)
     valid = [t for t in texts if t["kind"] == "valid" and t["want"] is None]
     if valid:
@@ -326,6 +356,9 @@ def history(rec, rng, texts, base, steps):
         r = rng.random()
         if prev is not None and r < 0.15:
             i = prev
+        elif prev is not None and texts[prev].get("follow") is not None and r < 0.8:
+            i = texts[prev]["follow"]
+            rec.cls("history:late_failure_then_sibling_with_other_tempi")
         else:
             i = rng.randrange(len(texts))
         seq.append(i)
